@@ -1,6 +1,7 @@
 #ifndef OWN_HPP
 #define OWN_HPP
 #include <string>
+#include <vector>
 class Item {
 public:
     Item();
@@ -16,6 +17,7 @@ public:
 void pool_release_item(Item *item);
 Item *newItem();
 Item *acquireItem();
+Item *cloneItem(int id);
 Item *peekItem();
 Item &refItem();
 Blob *newBlob();
@@ -27,4 +29,5 @@ int *peekInts(int *n);
 void useName(const std::string &name);
 void fillName(char *name);
 void takeNames(char **names);
+void listIds(std::vector<int> &ids);
 #endif
